@@ -18,15 +18,25 @@ package download
 //     list again). Within one pass a (peer, height) may be requested at most once, and a height gets at most one
 //     second-chance pass. The pass of a request is read from the task's own counter (initJob appends one latency
 //     sample per pass), at the moment the request arrives - the client is blocked on that request, so it is exact.
-//  3. termination: the handler returns. A request count above what 50 tries per height and pass can produce is a
-//     violation (livelock, decided by count, not time); a silent hang only trips the watchdog => inconclusive.
+//  3. termination: the handler returns. Two wall-clock-free bounds turn a task that does not terminate into a
+//     violation: (a) more requests than 50 tries per height and pass can produce; (b) more PeerHeight polls by one
+//     height of one pass than the code can make: downloadBlock calls availbTask at most 50 times per height and
+//     pass (retryCount), and availbTask asks PeerInfoManager.PeerHeight once per list entry, of which there are at
+//     most as many as given peers, i.e. <= 50 x peers polls; the bound is three times that. Polls are attributed
+//     to a height without help from the code: in the first pass every height has its own goroutine (goroutine
+//     id), in the second-chance pass every failed height has its own pass number. Any other silent hang only
+//     trips the watchdog => inconclusive.
 // Schedules are sampled, not controlled: every violation message carries the observed request/delivery history.
 
 import (
 	"context"
 	"encoding/json"
 	"fmt"
+	"math/rand"
+	"os"
+	"runtime"
 	"sort"
+	"strconv"
 	"strings"
 	"sync"
 	"sync/atomic"
@@ -67,7 +77,7 @@ func c35Serves(b byte) bool { return b == 'S' || b == 'L' }
 
 type c35Peer struct {
 	LatencyMs int    `json:"latencyMs"` // latency the peerstore reports: the task tries peers in this order
-	Claim     int    `json:"claim"`     // the peer claims to have the first Claim heights of the range (N = all)
+	Claim     int    `json:"claim"`     // the peer claims to have the first Claim heights of the range (N = all; -1 = no peer info: PeerHeight -1)
 	DelayMs   int    `json:"delayMs"`   // duration of this peer's L and T behaviours
 	Beh       string `json:"beh"`       // behaviour per height, codes above
 }
@@ -182,12 +192,19 @@ type c35PS struct {
 
 func (p c35PS) LatencyEWMA(id peer.ID) time.Duration { return p.lat[id] }
 
-type c35PIM struct{ height map[peer.ID]int64 }
+type c35PIM struct {
+	height map[peer.ID]int64
+	idx    map[peer.ID]int
+	run    *c35Run
+}
 
-func (m *c35PIM) Refresh(*types.Peer)          {}
-func (m *c35PIM) Fetch(peer.ID) *types.Peer    { return nil }
-func (m *c35PIM) FetchAll() []*types.Peer      { return nil }
-func (m *c35PIM) PeerHeight(pid peer.ID) int64 { return m.height[pid] }
+func (m *c35PIM) Refresh(*types.Peer)       {}
+func (m *c35PIM) Fetch(peer.ID) *types.Peer { return nil }
+func (m *c35PIM) FetchAll() []*types.Peer   { return nil }
+func (m *c35PIM) PeerHeight(pid peer.ID) int64 {
+	m.run.polled(m.idx[pid])
+	return m.height[pid]
+}
 func (m *c35PIM) PeerMaxHeight() (max int64) {
 	for _, h := range m.height {
 		if h > max {
@@ -208,6 +225,56 @@ type c35Run struct {
 	bound int
 	over  chan struct{} // closed when the request count exceeds bound
 	done  chan struct{} // closed when the case is over: releases stalled handlers
+
+	pollBound int
+	polls     map[c35PollKey]*c35Poll
+	stuck     chan struct{} // closed when one height of one pass polled PeerHeight more than pollBound times
+}
+
+// c35PollKey identifies one height of one pass without knowing the height: first pass = one goroutine per height,
+// second-chance pass = one pass number per failed height (all in the handler's goroutine).
+type c35PollKey struct {
+	Gid  uint64
+	Pass int
+}
+
+type c35Poll struct {
+	Gid    uint64      `json:"goroutine"`
+	Pass   int         `json:"pass"`
+	Count  int         `json:"peerHeightPolls"`
+	ByPeer map[int]int `json:"byPeer"`
+}
+
+func c35Gid() (id uint64) {
+	var b [40]byte
+	n := runtime.Stack(b[:], false)
+	for _, ch := range b[len("goroutine "):n] {
+		if ch < '0' || ch > '9' {
+			break
+		}
+		id = id*10 + uint64(ch-'0')
+	}
+	return
+}
+
+func (r *c35Run) polled(peerIdx int) {
+	k := c35PollKey{c35Gid(), r.pass()}
+	r.mu.Lock()
+	pl := r.polls[k]
+	if pl == nil {
+		pl = &c35Poll{Gid: k.Gid, Pass: k.Pass, ByPeer: map[int]int{}}
+		r.polls[k] = pl
+	}
+	pl.Count++
+	pl.ByPeer[peerIdx]++
+	if pl.Count == r.pollBound+1 {
+		select {
+		case <-r.stuck:
+		default:
+			close(r.stuck)
+		}
+	}
+	r.mu.Unlock()
 }
 
 func (r *c35Run) pass() int {
@@ -322,10 +389,14 @@ type c35Obs struct {
 	Delivered []c35Delivery `json:"delivered"`
 	discarded bool          // a stream to a loopback peer could not be opened: environment trouble, no verdict
 	livelock  bool          // the request count exceeded what 50 tries per height and pass can produce; the task was abandoned
+	Polls     []c35Poll     `json:"polls,omitempty"` // PeerHeight polls per height-of-a-pass; kept only when the poll bound tripped
+	pollBound int
+	maxPolls  int  // highest poll count of one height of one pass
+	stuck     bool // one height of one pass exceeded pollBound: the task was cancelled
 }
 
 func c35History(c c35Case, o c35Obs) map[string]interface{} {
-	return map[string]interface{}{"case": c, "requests": o.Reqs, "delivered": o.Delivered}
+	return map[string]interface{}{"case": c, "requests": o.Reqs, "delivered": o.Delivered, "polls": o.Polls}
 }
 
 func c35Short(o c35Obs) string {
@@ -346,6 +417,16 @@ func c35Short(o c35Obs) string {
 			fmt.Fprintf(&sb, " h%d<-%d", d.Height, d.Seq)
 		}
 	}
+	if len(o.Polls) > 0 {
+		sb.WriteString(" polls(goroutine/pass:count{peer:count}):")
+		for i, pl := range o.Polls {
+			if i == 12 {
+				fmt.Fprintf(&sb, " …(%d more)", len(o.Polls)-i)
+				break
+			}
+			fmt.Fprintf(&sb, " g%d/%d:%d%v", pl.Gid, pl.Pass, pl.Count, pl.ByPeer)
+		}
+	}
 	return sb.String()
 }
 
@@ -353,18 +434,25 @@ func c35Short(o c35Obs) string {
 func c35Exec(c c35Case) c35Obs {
 	f := c35Setup()
 	id := atomic.AddInt64(&c35Seq, 1)
-	r := &c35Run{c: c, base: id * c35Window, bound: 100*c.N + 10, over: make(chan struct{}), done: make(chan struct{})}
-	lat, hts := map[peer.ID]time.Duration{}, map[peer.ID]int64{}
+	r := &c35Run{c: c, base: id * c35Window, bound: 100*c.N + 10, over: make(chan struct{}), done: make(chan struct{}),
+		pollBound: 3 * 50 * len(c.Peers), polls: map[c35PollKey]*c35Poll{}, stuck: make(chan struct{})}
+	lat, hts, pidx := map[peer.ID]time.Duration{}, map[peer.ID]int64{}, map[peer.ID]int{}
 	var pids []string
 	for i, pr := range c.Peers {
 		pid := f.servers[i].ID()
 		lat[pid] = time.Duration(pr.LatencyMs) * time.Millisecond
 		hts[pid] = r.base + int64(pr.Claim) - 1
+		if pr.Claim < 0 {
+			hts[pid] = -1 // what PeerInfoManager answers before it has any info about the peer
+		}
+		pidx[pid] = i
 		pids = append(pids, pid.String())
 	}
 	var dialEr int32
-	r.p = &Protocol{counter: NewCounter(), P2PEnv: &protocol.P2PEnv{Ctx: context.Background(), QueueClient: f.pcli,
-		Host: c35Host{Host: f.client, ps: c35PS{Peerstore: f.client.Peerstore(), lat: lat}, dialEr: &dialEr}, PeerInfoManager: &c35PIM{height: hts}}}
+	ctx, cancel := context.WithCancel(context.Background())
+	defer cancel()
+	r.p = &Protocol{counter: NewCounter(), P2PEnv: &protocol.P2PEnv{Ctx: ctx, QueueClient: f.pcli,
+		Host: c35Host{Host: f.client, ps: c35PS{Peerstore: f.client.Peerstore(), lat: lat}, dialEr: &dialEr}, PeerInfoManager: &c35PIM{height: hts, idx: pidx, run: r}}}
 	f.mu.Lock()
 	f.blocks = nil
 	f.mu.Unlock()
@@ -387,6 +475,23 @@ func c35Exec(c c35Case) c35Obs {
 			}
 		}
 		f.mu.Unlock()
+		o.pollBound = r.pollBound
+		r.mu.Lock()
+		for _, pl := range r.polls {
+			if pl.Count > o.maxPolls {
+				o.maxPolls = pl.Count
+			}
+			if pl.Count > r.pollBound/3 { // only the heavy pollers are worth showing
+				cp := *pl
+				cp.ByPeer = map[int]int{}
+				for k, v := range pl.ByPeer {
+					cp.ByPeer[k] = v
+				}
+				o.Polls = append(o.Polls, cp)
+			}
+		}
+		r.mu.Unlock()
+		sort.Slice(o.Polls, func(i, j int) bool { return o.Polls[i].Count > o.Polls[j].Count })
 		return
 	}
 	finish := func() { c35Cur.Store(nil); close(r.done) }
@@ -396,6 +501,16 @@ func c35Exec(c c35Case) c35Obs {
 		o := snapshot()
 		finish()
 		o.livelock = true
+		return o
+	case <-r.stuck:
+		o := snapshot()
+		o.stuck = true
+		cancel() // lets the polling goroutines leave (they test p.Ctx once per iteration), so the process stays usable
+		select {
+		case <-ret:
+		case <-time.After(time.Minute):
+		}
+		finish()
 		return o
 	case <-time.After(10 * time.Minute):
 		o := snapshot()
@@ -430,6 +545,11 @@ func c35Check(c c35Case, o c35Obs) (probs []c35Problem, reasked, secondChance bo
 	// --- 3. termination (by count) ---
 	if o.livelock {
 		bad("", "task does not terminate: %d requests for %d heights, more than 50 tries per height and pass can produce", len(o.Reqs), c.N)
+		return
+	}
+	if o.stuck {
+		pl := o.Polls[0]
+		bad("", "task does not terminate: one height (goroutine %d, pass %d) asked PeerInfoManager.PeerHeight %d times %v without the task ending; 50 tries per height and pass over %d peers allow at most %d polls (bound used: %d)", pl.Gid, pl.Pass, pl.Count, pl.ByPeer, len(c.Peers), 50*len(c.Peers), o.pollBound)
 		return
 	}
 	// --- 1. delivery ---
@@ -563,22 +683,49 @@ func c35Gen(t *rapid.T) c35Case {
 		pr.Beh = string(beh)
 		c.Peers = append(c.Peers, pr)
 	}
-	// partial availability: some (never all) peers claim only a prefix of the range. A height whose remaining
-	// candidates all claim less makes the task poll for 50 x 400 ms per pass, so every height above the lowest
-	// claim gets a serving full-range peer, except (thorough tier, rarely) one starved height.
-	if n >= 2 && rapid.IntRange(0, 4).Draw(t, "partial") == 0 {
+	// partial availability: some peers claim only a prefix of the range, or nothing at all (claim -1: no peer info
+	// yet, PeerHeight answers -1). A height that is left with candidates that all claim less makes the task poll
+	// (50 x 400 ms per pass), so every height above the lowest claim gets a serving peer among the tallest ones -
+	// except one "starved" height in a minority of the thorough-tier cases (the quick tier gets its starved heights
+	// from TestGenC35StarvedTriggers), built in one of the three ways such a height arises in practice:
+	//   above    the range ends one height beyond what every given peer announced
+	//   noinfo   the short peers have no peer info (-1) and every peer with info fails the height
+	//   onlytall exactly one peer is tall enough for the height, and it fails it
+	if n >= 2 && rapid.IntRange(0, 3).Draw(t, "partial") == 0 {
+		variant := ""
+		if lib.Thorough() && rapid.IntRange(0, 3).Draw(t, "starve") == 0 {
+			variant = rapid.SampledFrom([]string{"above", "noinfo", "onlytall"}).Draw(t, "starveVariant")
+		}
 		low := rapid.IntRange(1, k-1).Draw(t, "lowPeers")
-		minClaim := n
-		for _, i := range rapid.Permutation(idx).Draw(t, "lowWho")[:low] {
-			c.Peers[i].Claim = rapid.IntRange(0, n-1).Draw(t, "claim")
-			if c.Peers[i].Claim < minClaim {
-				minClaim = c.Peers[i].Claim
+		if variant == "onlytall" {
+			low = k - 1
+		}
+		top := n // claim of the tallest peers
+		if variant == "above" {
+			top = n - 1
+		}
+		minClaim := top
+		lowWho := rapid.Permutation(idx).Draw(t, "lowWho")[:low]
+		for i := range c.Peers {
+			c.Peers[i].Claim = top
+		}
+		for _, i := range lowWho {
+			cl := rapid.IntRange(-1, top-1).Draw(t, "claim")
+			if variant == "noinfo" {
+				cl = -1
+			}
+			c.Peers[i].Claim = cl
+			if cl < 0 {
+				cl = 0
+			}
+			if cl < minClaim {
+				minClaim = cl
 			}
 		}
-		var full []int
+		var tall []int
 		for i, pr := range c.Peers {
-			if pr.Claim == n {
-				full = append(full, i)
+			if pr.Claim == top {
+				tall = append(tall, i)
 			}
 		}
 		set := func(i, h int, b byte) {
@@ -587,18 +734,69 @@ func c35Gen(t *rapid.T) c35Case {
 			c.Peers[i].Beh = string(bb)
 		}
 		starved := -1
-		if lib.Thorough() && rapid.IntRange(0, 9).Draw(t, "starve") == 0 {
-			starved = rapid.IntRange(minClaim, n-1).Draw(t, "starvedHeight")
+		switch variant {
+		case "above":
+			starved = n - 1
+		case "noinfo", "onlytall":
+			starved = rapid.IntRange(minClaim, top-1).Draw(t, "starvedHeight")
+			for _, i := range lowWho { // onlytall: nobody else may be tall enough for the starved height
+				if c.Peers[i].Claim > starved {
+					c.Peers[i].Claim = starved
+				}
+			}
 		}
-		for h := minClaim; h < n; h++ {
+		for h := minClaim; h < top; h++ {
 			if h == starved {
-				for i := range c.Peers {
-					set(i, h, 'R')
+				for _, i := range tall {
+					if c35Serves(c.Peers[i].Beh[h]) {
+						set(i, h, 'R')
+					}
 				}
 				continue
 			}
-			set(full[rapid.IntRange(0, len(full)-1).Draw(t, "rescuer")], h, 'S')
+			set(tall[rapid.IntRange(0, len(tall)-1).Draw(t, "rescuer")], h, 'S')
 		}
+	}
+	return c
+}
+
+// c35StarvedCase builds (from a seeded source, for the plain test) a small case with exactly one starved height of
+// the given variant (see c35Gen); every other height is served by a tallest peer.
+func c35StarvedCase(rng *rand.Rand, variant string) c35Case {
+	n, k := 2+rng.Intn(7), 2+rng.Intn(3)
+	c := c35Case{N: n}
+	top := n
+	if variant == "above" {
+		top = n - 1
+	}
+	starved := top - 1 - rng.Intn(top) // a height below top ...
+	if variant == "above" {
+		starved = n - 1 // ... or the one above every claim
+	}
+	tallPeer := rng.Intn(k)
+	for i, r := range rng.Perm(k) {
+		pr := c35Peer{LatencyMs: 10 * (r + 1), Claim: top, DelayMs: 20}
+		beh := make([]byte, n)
+		for h := range beh {
+			beh[h] = 'S'
+			if i != tallPeer && rng.Intn(10) < 4 {
+				beh[h] = "RTENOGWB"[rng.Intn(8)]
+			}
+		}
+		switch {
+		case i == tallPeer:
+			if starved < top {
+				beh[starved] = "RTENOGW"[rng.Intn(7)]
+			}
+		case variant == "noinfo":
+			pr.Claim = -1
+		case variant == "onlytall":
+			pr.Claim = rng.Intn(starved + 1) // 0..starved: not tall enough for the starved height
+		case variant == "above" && rng.Intn(2) == 0:
+			pr.Claim = rng.Intn(top + 1)
+		}
+		pr.Beh = string(beh)
+		c.Peers = append(c.Peers, pr)
 	}
 	return c
 }
@@ -658,6 +856,41 @@ func c35Classes(c c35Case, o c35Obs, reasked, second bool) {
 	if partial {
 		lib.Class("partial_availability")
 	}
+	noinfo, above, onlyTallFails, starved := false, false, false, false
+	for _, pr := range c.Peers {
+		noinfo = noinfo || pr.Claim < 0
+	}
+	for h := 0; h < c.N; h++ {
+		eligible, serving, failing := 0, 0, 0
+		for _, pr := range c.Peers {
+			if h < pr.Claim {
+				eligible++
+				if c35Serves(pr.Beh[h]) {
+					serving++
+				} else {
+					failing++
+				}
+			}
+		}
+		above = above || eligible == 0
+		onlyTallFails = onlyTallFails || (eligible == 1 && failing == 1)
+		starved = starved || (serving == 0 && eligible < len(c.Peers)) // ends up with candidates that all claim less: polls
+	}
+	if noinfo {
+		lib.Class("peer_without_info_height_-1")
+	}
+	if above {
+		lib.Class("height_above_every_claim")
+	}
+	if onlyTallFails {
+		lib.Class("only_tall_enough_peer_fails")
+	}
+	if starved {
+		lib.Class("starved_height_polls_50x400ms")
+	}
+	if o.maxPolls >= 50 {
+		lib.Class("some_height_polled_PeerHeight_50_times_or_more_in_a_pass")
+	}
 	if unserved {
 		lib.Class("some_height_unservable")
 	}
@@ -671,33 +904,50 @@ func c35Classes(c c35Case, o c35Obs, reasked, second bool) {
 	lib.ClassN("deliveries", len(o.Delivered))
 }
 
+// c35Judge applies the oracle to one executed case: a listed finding is tolerated by exact signature (with the
+// entry absent the oracle is strict), anything else is a violation; then the case is counted.
+func c35Judge(t lib.TB, test string, c c35Case, o c35Obs) {
+	if o.discarded {
+		lib.Class("discarded_stream_open_error")
+		return
+	}
+	probs, reasked, second := c35Check(c, o)
+	for _, p := range probs {
+		if p.Finding != "" && lib.Known(p.Finding) {
+			lib.ExcludedKnown(p.Finding)
+			continue
+		}
+		lib.Violation(t, "C35", test, c35History(c, o), "%s", p.Msg)
+	}
+	c35Classes(c, o, reasked, second)
+	if c35NonTrivial(c) {
+		lib.Class("nontrivial")
+		lib.NonTrivialCase(c)
+	}
+}
+
 func TestPropDownloadDeliversServable(t *testing.T) {
 	defer lib.Flush()
 	c35Setup()
-	const test = "TestPropDownloadDeliversServable"
 	rapid.Check(t, func(t *rapid.T) {
 		c := c35Gen(t)
 		lib.Eval()
-		o := c35Exec(c)
-		if o.discarded {
-			lib.Class("discarded_stream_open_error")
-			return
-		}
-		probs, reasked, second := c35Check(c, o)
-		for _, p := range probs {
-			// a listed finding is tolerated by exact signature; with the entry absent the oracle is strict
-			if p.Finding != "" && lib.Known(p.Finding) {
-				lib.ExcludedKnown(p.Finding)
-				continue
-			}
-			lib.Violation(t, "C35", test, c35History(c, o), "%s", p.Msg)
-		}
-		c35Classes(c, o, reasked, second)
-		if c35NonTrivial(c) {
-			lib.Class("nontrivial")
-			lib.NonTrivialCase(c)
-		}
+		c35Judge(t, "TestPropDownloadDeliversServable", c, c35Exec(c))
 	})
+}
+
+// TestGenC35StarvedTriggers (plain, one process per shard): the heights that make the task poll for a peer that
+// will never become eligible cost 50 x 400 ms per pass in the unchanged code, so they are kept out of the quick
+// rapid search and generated here instead, one seeded case per process, the variant chosen by the shard number.
+func TestGenC35StarvedTriggers(t *testing.T) {
+	defer lib.Flush()
+	seed, _ := strconv.ParseInt(os.Getenv("VERIF_SHARD_SEED"), 10, 64)
+	shard, _ := strconv.Atoi(os.Getenv("VERIF_SHARD"))
+	variant := []string{"above", "noinfo", "onlytall"}[shard%3]
+	c := c35StarvedCase(rand.New(rand.NewSource(seed)), variant)
+	lib.Eval()
+	lib.Class("starved_variant_" + variant)
+	c35Judge(t, "TestGenC35StarvedTriggers", c, c35Exec(c))
 }
 
 // ---- pinned cases (plain tests, no generation) ----
